@@ -710,3 +710,54 @@ void h_stripv(void)
   V_COVER(g_hit < 0 && g_np == 3);
 }
 #endif
+
+/* ================= del_dochan: framing of the report stream (C18, C04) ================= */
+#ifdef P_DELFRAME
+/* Any number of reports and report fragments per read, from any state of the slot table; the specification of
+ * what a complete report does to its slot is proof send_del_report, here: where reports begin and end, truncation,
+ * that only a complete report naming a used slot in range reaches markdone/addbounce/job_close, and that the
+ * count of outstanding deliveries keeps matching the slot table. */
+static struct job jobs[NJOB]; static struct del dels[CHANNELS][NSLOT]; static char dl[REPORTMAX + 1];
+int g_c, g_r, g_app, g_needs_close, g_close_j, g_zcat, g_reports, g_trunc, g_after;
+ssize_t read(int fd, void *b, size_t n) { long r = ND_LONG(); V_ASSERT(b == (void *)delbuf && n == sizeof delbuf, "C18: supporting: reports are read into delbuf"); __CPROVER_havoc_object(delbuf); V_ASSUME(-1 <= r && r <= (long)sizeof delbuf); g_r = (int)r; return r; }
+int stralloc_cats(stralloc *sa, char *s) { V_ASSERT(sa == &dline[g_c] && g_needs_close, "C18: supporting"); sa->len += 70; g_zcat = 1; return 1; }
+int stralloc_append(stralloc *sa, char *p)
+{
+  V_ASSERT(sa == &dline[g_c], "C18: supporting: a channel's reports are collected in its own buffer");
+  if (g_zcat) { g_zcat = 0; ++sa->len; return 1; }   /* the NUL after the too-long-in-queue text */
+  V_ASSERT(!g_needs_close, "C18: a complete report is processed before the next byte is stored");
+  V_ASSERT(0 <= g_app && g_app < g_r && *p == delbuf[g_app], "C18: every byte of the report stream is stored unchanged and in order");
+  V_ASSERT(sa->len <= REPORTMAX, "C18: oversized reports are truncated");
+  if (g_after) { V_ASSERT(sa->len == 0, "C18: after a complete report - accepted or not - the next one starts in an empty buffer"); g_after = 0; }
+  if (sa->len == REPORTMAX) g_trunc = 1;
+  sa->s[sa->len] = *p; ++sa->len; ++g_app;
+  if (!*p && sa->len > 1) {   /* a report is complete: delivery number byte, at least one more byte, NUL */
+    int dn = (unsigned char)sa->s[0];
+    if (g_reports < 100) ++g_reports;
+    g_after = 1;
+    if (dn < (int)concurrency[g_c] && dels[g_c][dn].used) { g_needs_close = 1; g_close_j = dels[g_c][dn].j; }
+  }
+  return 1;
+}
+void h_delframe(void)
+{
+  int c = ND_BOOL(), k, n = 0;
+  common_init(); numjobs = NJOB; jo = jobs; d[0] = dels[0]; d[1] = dels[1]; g_c = c;
+  concurrency[c] = ND_UINT(); V_ASSUME(concurrency[c] <= NSLOT);
+  for (k = 0; k < NJOB; ++k) { jobs[k].numtodo = ND_INT(); jobs[k].flagdying = ND_BOOL(); jobs[k].id = ND_ULONG(); V_ASSUME(0 <= jobs[k].numtodo); }
+  for (k = 0; k < NSLOT; ++k) { dels[c][k].used = k < (int)concurrency[c] ? ND_BOOL() : 0; dels[c][k].j = ND_INT(); V_ASSUME(0 <= dels[c][k].j && dels[c][k].j < NJOB); if (dels[c][k].used) ++n; }
+  concurrencyused[c] = n;
+  dline[c].s = dl; dline[c].a = REPORTMAX + 1; dline[c].len = ND_UINT(); V_ASSUME(dline[c].len <= REPORTMAX);   /* a fragment left by an earlier read */
+  g_app = 0; g_needs_close = 0; g_zcat = 0; g_reports = 0; g_trunc = 0; g_r = 0; g_after = 0;
+  del_dochan(c);
+  if (g_r > 0) {
+    V_ASSERT(g_app == g_r, "C18: supporting: every byte read is consumed");
+    V_ASSERT(dline[c].len <= REPORTMAX, "C18: oversized reports are truncated");
+    V_ASSERT(!g_needs_close, "C18: every complete report naming a used slot frees that slot");
+    V_ASSERT(!g_after || dline[c].len == 0, "C18: after a complete report - accepted or not - the next one starts in an empty buffer");
+    n = 0; for (k = 0; k < NSLOT; ++k) if (dels[c][k].used) ++n;
+    V_ASSERT((int)concurrencyused[c] == n, "C04: the count of outstanding deliveries equals the number of slots in use, whatever bytes arrive on the report channel");
+  }
+  V_COVER(g_reports >= 3); V_COVER(g_trunc && g_reports >= 1); V_COVER(g_r == 2048);
+}
+#endif
